@@ -140,16 +140,30 @@ def takeDirs : Nat → List Str → Option (FileSys × List Str)
     | none => none
   | _ + 1, _ => none
 
+/-- take `n` file entries `name nLines line*` -/
+def takeFiles : Nat → List Str → Option (List (Str × List Str) × List Str)
+  | 0, fs => some ([], fs)
+  | n + 1, name :: nL :: rest =>
+    match takeN (natOf nL) rest with
+    | some (ls, r) =>
+      match takeFiles n r with
+      | some (fl, r') => some ((name, ls) :: fl, r')
+      | none => none
+    | none => none
+  | _ + 1, _ => none
+
 def srcErrOut : SrcErr → List Str
   | .tomlDecode => ["err".toList, "tomlDecode".toList, []]
   | .settings e => errOut e
 
-/-- c15.effl cwd addr pkg nDirs (dir state nKw (k v)*)* nMd line* hasCfg nCfg (k v)* nCli (k v)* -/
+/-- c15.effl cwd addr pkg incRepaired nDirs (dir state nKw (k v)*)* nFiles (name nLines line*)* nMd line* hasCfg nCfg (k v)* nCli (k v)* -/
 def effl (T : Tables) (args : List Str) : Option (List Str) :=
   match args with
-  | cwd :: addr :: pkg :: nDirs :: r0 =>
+  | cwd :: addr :: pkg :: incRep :: nDirs :: r0 =>
     match takeDirs (natOf nDirs) r0 with
-    | some (fsys, nMd :: r2) =>
+    | some (fsys, nFiles :: r1) =>
+     match takeFiles (natOf nFiles) r1 with
+     | some (files, nMd :: r2) =>
       match takeN (natOf nMd) r2 with
       | some (md, hasCfg :: nCfg :: r3) =>
         match takeKvs (natOf nCfg) r3 with
@@ -157,12 +171,13 @@ def effl (T : Tables) (args : List Str) : Option (List Str) :=
           match takeKvs (natOf nCli) r4 with
           | some (cli, []) =>
             let c := if hasCfg == ['1'] then some cfg else none
-            match effectiveAt T Generated.tomlLookups fsys cwd addr pkg md c cli with
+            match effectiveAt T Generated.tomlLookups fsys cwd addr pkg md c cli files (incRep == ['1']) with
             | .ok (s, w) => some (outSettings s w)
             | .error e => some (srcErrOut e)
           | _ => none
         | _ => none
       | _ => none
+     | _ => none
     | _ => none
   | _ => none
 
@@ -187,6 +202,13 @@ def dispatchC15 : List Str → Option (List Str)
       match effl generatedTablesModsRepaired args with
       | some r => some r
       | none => some ["bad-request".toList]
+    else if cmd == "c15.incline".toList then
+      match args with
+      | [l] => some (match incParse l with
+          | .plain => ["plain".toList]
+          | .inc a b c => ["inc".toList, a, b, c]
+          | .other => ["other".toList])
+      | _ => some ["bad-request".toList]
     else if cmd == "c15.dirname".toList then
       match args with
       | [cwd, addr] => some ["ok".toList, dirname addr, projectDirOf cwd addr]
